@@ -128,13 +128,21 @@ def run(ctx: Ctx):
             ctx.finding("FRESH-EXPOSURE", predict, predict.node, f"predict reads `self.{a}`, which fit does not expose", construct=f"predict reads self.{a}")
         rets = [r for r in own_scope_nodes(predict.node) if isinstance(r, ast.Return)]
         for r in rets:
-            dots = [c for c in ast.walk(r) if isinstance(c, ast.Call) and call_name(c) in ("dot", "matmul", "tensordot")]
+            from ..common import inline_locals
+
+            rv = inline_locals(predict.node, r, depth=6)  # flat_X = partial_tensor_to_vec(X); weights = self.weight_tensor_; ...
+            dots = [c for c in ast.walk(rv) if isinstance(c, ast.Call) and call_name(c) in ("dot", "matmul", "tensordot")]
             ok = False
             for d in dots:
                 if len(d.args) >= 2:
                     a0, a1 = d.args[0], d.args[1]
                     left = isinstance(a0, ast.Call) and call_name(a0) == "partial_tensor_to_vec" and a0.args and is_name(a0.args[0], predict.call_params[0])
-                    right = any(isinstance(x, ast.Attribute) and x.attr in ("weight_tensor_", "vec_W_") and is_name(x.value, predict.self_name) for x in ast.walk(a1))
+                    # the exposed weights themselves, re-arranged at most (reshape / transpose): a cast, a copy
+                    # with change or any arithmetic on the way means predict uses other numbers than it exposes
+                    core = a1
+                    while isinstance(core, ast.Call) and call_name(core) in ("reshape", "transpose", "ravel", "moveaxis", "tensor_to_vec", "partial_tensor_to_vec") and core.args:
+                        core = core.args[0]
+                    right = isinstance(core, ast.Attribute) and core.attr in ("weight_tensor_", "vec_W_") and is_name(core.value, predict.self_name)
                     if left and right:
                         ok = True
             res.instance("FRESH-EXPOSURE", f"{predict.qname}: {src(r)[:70]}", sample={"ok": ok})
